@@ -20,7 +20,7 @@ RULE = ("every entry of data/standards.txt (exact rationals for defined units/pr
         "temperature probe points) x every listed spelling x {Fraction, float} registries: Quantity(1, spelling).to(<SI base expression>) "
         "must equal the tabulated value (== in Fraction for exact entries; 1e-45 for pi entries; stated tolerance for derived CODATA "
         "values; ulp tolerance in float), the spelling must resolve to the entry, the symbol must match. The finite table is enumerated "
-        "completely. Non-trivial = entry whose value != 1; distinct = distinct entry name")
+        "completely, as are prefix symbol x unit symbol of standard units, defined names reading as prefix + unit, and the derived dimension names / SI special-name units of oracle/dimtable.py. Non-trivial = entry whose value != 1; distinct = distinct entry name")
 ASSUMPTIONS = ["the table was written from memory of the SI brochure / NIST SP 811 / Handbook 44 / CODATA 2022 without network access and "
                "cross-checked only by internal consistency relations (mile = 1760 yd, lb = 7000 gr, gal = 231 in^3, R = k N_A, ...)",
                "two SI defining constants (caesium frequency, K_cd) are not carried by the registry and are not in the table"]
